@@ -32,6 +32,10 @@ type filterCase struct {
 	Self  bool   `json:"self"`
 	SeedT uint64 `json:"seed_t"`
 	SeedQ uint64 `json:"seed_q"`
+	// PreSeed != 0: the same Filter value first filters another query of PreLen letters (as PALS does
+	// when it searches the two strands one after the other); its hits are discarded
+	PreSeed uint64 `json:"pre_seed,omitempty"`
+	PreLen  int    `json:"pre_len,omitempty"`
 }
 
 // expand is a pure function of the seed: a fixed linear congruential sequence mapped to ACGT.
@@ -92,6 +96,25 @@ func runFilter(c filterCase, t, q []byte) ([]filter.Hit, error) {
 		return nil, err
 	}
 	defer m.CleanUp()
+	if c.PreSeed != 0 && !c.Self {
+		pre := expand(c.PreSeed, c.PreLen)
+		// the earlier query shares stretches with the target so that it leaves k-mer counts behind
+		for i := 0; i+40 < len(pre) && i+40 < len(t); i += 97 {
+			copy(pre[i:i+40], t[(i*7)%(len(t)-40):])
+		}
+		if err := f.Filter(linear.NewSeq("pre", alphabet.BytesToLetters(pre), alphabet.DNA), false, false, m); err != nil {
+			return nil, err
+		}
+		for {
+			var h filter.Hit
+			if err := m.Pull(&h); err != nil {
+				break
+			}
+		}
+		if err := m.Clear(); err != nil {
+			return nil, err
+		}
+	}
 	if err := f.Filter(qs, c.Self, false, m); err != nil {
 		return nil, err
 	}
@@ -307,6 +330,10 @@ func gen(t *rapid.T) filterCase {
 		c.T0 = place("t0", c.TLen)
 		c.Q0 = place("q0", c.QLen)
 	}
+	if !c.Self && rapid.IntRange(0, 2).Draw(t, "reuse-filter") == 0 {
+		c.PreSeed = rapid.Uint64Range(1, 1<<62).Draw(t, "pre-seed")
+		c.PreLen = rapid.IntRange(minLen, max(minLen, maxLen)).Draw(t, "pre-len")
+	}
 	ns := rapid.IntRange(0, c.E).Draw(t, "nsubs")
 	seen := map[int]bool{}
 	for len(c.Subs) < ns {
@@ -336,6 +363,9 @@ func classes(c filterCase) []string {
 	if c.Self {
 		l = append(l, "self")
 	}
+	if c.PreSeed != 0 {
+		l = append(l, "filter-reused-after-another-query")
+	}
 	if c.T0 < 60 || c.Q0 < 60 {
 		l = append(l, "near-a-start")
 	}
@@ -350,5 +380,5 @@ func classes(c filterCase) []string {
 
 func TestFilter(t *testing.T) {
 	vlib.Run(t, vlib.Prop[filterCase]{Name: "planted-and-chance-matches", Checks: 3000, Thorough: 320000, Gen: gen, Check: check, Classes: classes, MaxKnownFrac: 0.1,
-		MinFrac: map[string]float64{"self": 0.1, "near-an-end": 0.2, "offset>k": 0.3, "offset<=k": 0.1}})
+		MinFrac: map[string]float64{"self": 0.1, "near-an-end": 0.2, "offset>k": 0.3, "offset<=k": 0.1, "filter-reused-after-another-query": 0.15}})
 }
